@@ -168,6 +168,10 @@ impl StorageData for FileStorage {
     }
 
     fn write(&mut self, pos: u64, bytes: &[u8]) -> Result<(), DbError> {
+        if bytes.is_empty() {
+            return Ok(());
+        }
+
         let current_len = self.len();
         let end = pos + bytes.len() as u64;
         let mut buffer = vec![0_u8; (std::cmp::min(current_len, end) - pos) as usize];
